@@ -79,3 +79,9 @@ claim("C02",
       "Decides the structural clauses of 'every loop exit and return transfers control to exactly the construct it names' and 'locals of one call are never visible to another': a control returned by a child evaluation is tested, returned or passed on before the next evaluation, before it is overwritten and before the function returns; in statement containers a control known to be non-nil is never dropped; each loop's continue arm leaves the statement loop; each loop's/switch's break arm hands back nil or a level-reduced new control, never the break it received; the level of break N / continue N is parsed, stored and read; CreateContext allocates a fresh variable vector. What programs print (conditions, arithmetic, defaults, static locals, switch fall-through) is value-level and not decided.",
       "child evaluations identified by result type data.Control (Context lookups excluded); 'statement container' = node type holding a list of child nodes; expression helpers that suppress errors on purpose (isset/empty/@/??) are outside the swallowed rule; generator resume paths keep level 1; assumed table listed in evidence",
       "DESIGN.md §2 C02")
+
+claim("C06",
+      "cell-origin dataflow for every write of (*ZVal).Value in data/node/runtime/std (slot-list origin vs variable slot vs fresh, RefSlotCount guard recognition, one-level summaries for functions that write a cell parameter); sink table check (copy of *ArrayValue before every container store); nested-path detach check",
+      "Decides the two structural disciplines that value semantics needs under the repository's shallow-copy design: no in-place write of a cell taken from an array's slot list unless guarded by RefSlotCount > 0, and every store of a value into a variable slot, property, array element or array literal copies an *ArrayValue first (clone copies properties through such a store). A violation of either lets a write through one name show through another for some route. It does not decide nested arrays beyond the detach rule (a listed known finding), in-place sort/push internals, or what a program prints.",
+      "cell origins recognised syntactically (X.List[i], range over X.List, FindSlotByIntKey); guards recognised as if-conditions on RefSlotCount; SPL object storages tabled as not armed; sink table confirmed by reading",
+      "DESIGN.md §2 C06")
